@@ -19,6 +19,7 @@ func init() {
 		"for thresholds 1..5, run against a real ConsecCircuitBreaker with measured clock readings (a sequence whose measured gaps are too close to the window "+
 		"to judge is re-run, never judged); the measured times are given to the Lean model; direct oracle: ErrBreakerOpen <=> function not invoked, and the "+
 		"refusal pattern equals the consecutive-failure rule; plus dial counting through an XClient configured with a breaker (all fail modes x retries; Failfast runs replayed attempt by attempt on the Lean dial model); "+
+		"plus scripts through the exported Breaker interface (Fail x threshold, a late Fail while open, Ready before / after the window of the most recent failure); "+
 		"non-trivial = sequence in which the breaker is refused at least once or recovers; distinct = distinct (threshold, step pattern)",
 		runC18)
 }
@@ -254,6 +255,7 @@ func runC18(o *Out, r *rand.Rand) {
 		o.counters["unjudged"] = unjudged
 	}
 	c18Dial(o, r)
+	c18Direct(o, r)
 }
 
 // ---- XClient wiring: a discovery client with a breaker stops dialling ----------------
@@ -360,5 +362,57 @@ func c18DialCase(o *Out, th int, mode client.FailMode, retries int) {
 				fmt.Sprintf("%s dials=%d", letters, atomic.LoadInt64(&c18Dials)), true)
 		}
 		xc.Close()
+	}
+}
+
+// c18Direct: the breaker through its exported Breaker interface (Ready / Fail / Success – what the
+// discovery client uses, and what concurrent callers of Call amount to): failures reported while the
+// breaker is already open are failures too – the window runs from the MOST RECENT one.
+func c18Direct(o *Out, r *rand.Rand) {
+	window := 120 * time.Millisecond
+	ths := []int{1, 2, 3}
+	if thorough() {
+		ths = []int{1, 2, 3, 4, 5}
+	}
+	for _, th := range ths {
+		for attempt := 0; attempt < 3; attempt++ {
+			var b client.Breaker = client.NewConsecCircuitBreaker(uint64(th), window)
+			for i := 0; i < th; i++ {
+				b.Fail()
+			}
+			trip := time.Now()
+			openAtOnce := !b.Ready()
+			time.Sleep(80 * time.Millisecond)
+			b.Fail() // a straggler: a caller that had passed Ready() before the breaker opened
+			last := time.Now()
+			time.Sleep(70 * time.Millisecond)
+			t1 := time.Now()
+			ready1 := b.Ready()
+			t1b := time.Now()
+			// judged only when the clock readings are clearly on the intended sides of the window
+			if t1.Sub(trip) < window+8*time.Millisecond || t1b.Sub(last) > window-15*time.Millisecond {
+				o.Note("direct breaker script th=%d: measured gaps too close to the window to judge (%v, %v)", th, t1.Sub(trip), t1b.Sub(last))
+				continue
+			}
+			time.Sleep(window)
+			ready2 := b.Ready()
+			o.Eval(fmt.Sprintf("direct th=%d fail*%d wait fail wait ready wait ready", th, th), true)
+			o.Count("direct.scripts")
+			rp := map[string]any{"threshold": th, "window_ms": window.Milliseconds(), "script": fmt.Sprintf("Fail x%d; +80ms Fail; +70ms Ready; +%dms Ready", th, window.Milliseconds()),
+				"since_trip_ms": t1.Sub(trip).Milliseconds(), "since_most_recent_failure_ms": t1b.Sub(last).Milliseconds(), "ready": []bool{ready1, ready2}}
+			if !openAtOnce {
+				o.Violate("c18.direct.not-open", fmt.Sprintf("threshold %d: Ready() is true right after %d consecutive failures", th, th), rp)
+				return
+			}
+			if ready1 {
+				o.Violate("c18.direct.window-from-most-recent-failure", fmt.Sprintf("threshold %d: %v after the most recent failure (window %v) the breaker admits calls again – it measured the window from the failure that tripped it", th, t1b.Sub(last).Round(time.Millisecond), window), rp)
+				return
+			}
+			if !ready2 {
+				o.Violate("c18.direct.no-recovery", fmt.Sprintf("threshold %d: the breaker still refuses a full window after the most recent failure", th), rp)
+				return
+			}
+			break
+		}
 	}
 }
